@@ -5,7 +5,7 @@ META = {
     "title": "Observables are recorded exactly at their requested times",
     "technique": "static analysis: who-may-call and event-order analysis of the observable hooks in both "
                  "drivers, term equality of the time given to the filter and to the callbacks, taint analysis "
-                 "exact-merge → tolerance-unique sink",
+                 "exact-merge → tolerance-unique sink; path enumeration over the statement CFG of the time-merge loop; tolerance ordering (filter ≤ merge)",
     "design_ref": "DESIGN.md §5 C14, A.11",
     "explanation": "ONCE: fill_results (emu-mps) has exactly the call sites init() and the base "
                    "timestep_complete(), runs once per completed step after current_time is set and before the "
